@@ -1,7 +1,7 @@
 """C03 - new -getset: accessors exist exactly as directed and round-trip."""
 import re
 
-from vlib import core, newgen, pkgrun, dirleg
+from vlib import core, newgen, pkgrun, dirleg, xferleg
 from vlib.sexp import Q, dump
 from props.c13 import leaf_types
 
@@ -248,6 +248,8 @@ def run(ctx, obl):
                 "followed by reading all leaves and all own getters. non-trivial = has a setter and a directive or embed")
     dirleg.run(ctx, res, ctx.n(30000, 300000))
     dirleg.check_renderer(ctx, res, [d for c in cases for d in newgen.field_docs(c["spec"])])
+    # accessor names are pascalCase(field name): the Lean Transfer model against internal/transfer on many more strings
+    xferleg.run(ctx, res, ctx.n(5000, 50000))
     res.assumptions = ["own-method lists are read from the generated (gofmt-ed) source by regexp", "bool fields: written value and dirty marker are both `true`"]
     return res
 
